@@ -6,8 +6,8 @@ import tlc, dsl
 SPECS = tlc.SPECS
 
 
-def iteration_events(pidx, trace, end):
-    ev = [{"k": "reset", "p": pidx}]
+def iteration_events(pidx, trace, end, pb=-1):
+    ev = [{"k": "reset", "p": pidx, "pb": pb}]
     for (t, pc, res) in trace:
         ev.append({"k": "op", "t": t, "pc": pc, "res": -1 if res is None else res})
     ev.append({"k": "end", "e": end})
@@ -61,7 +61,7 @@ def _run_chunk(workdir, name, iters, cfgname, module="MCTrace"):
 
 
 def validate(ctx, progs, results, cfgname="MCTrace_upper.cfg", label="trace", skip=lambda i: False, chunk_events=6000,
-             include_fail=True):
+             include_fail=True, pb_of=lambda i: -1):
     """Validate all recorded traces of `results` (driver output, aligned with progs).
     Returns list of (prog index, meta, reject_info)."""
     work = os.path.join(ctx.work, label)
@@ -74,10 +74,10 @@ def validate(ctx, progs, results, cfgname="MCTrace_upper.cfg", label="trace", sk
         if skip(i):
             continue
         for k, tr in enumerate(r.get("traces", [])):
-            iters.append(({"prog": i, "trace": k, "end": "ok"}, iteration_events(i + 1, tr, "ok")))
+            iters.append(({"prog": i, "trace": k, "end": "ok"}, iteration_events(i + 1, tr, "ok", pb_of(i))))
         if include_fail and r["end"] != "ok" and (r.get("fail_trace") or r["end"] in ("deadlock", "race", "panic")):
             e = end_event_kind(r["end"])
-            iters.append(({"prog": i, "trace": "fail", "end": e}, iteration_events(i + 1, r.get("fail_trace", []), e)))
+            iters.append(({"prog": i, "trace": "fail", "end": e}, iteration_events(i + 1, r.get("fail_trace", []), e, pb_of(i))))
     if not iters:
         return []
     chunks, cur, n = [], [], 0
